@@ -174,22 +174,36 @@ def execute(group):
             seen.setdefault(tuple(tgt), {}).setdefault(h, (j, opi))
     problems = {}
     variants = 0
-    for tgt in sorted(seen):
-        if len(seen[tgt]) < 2:
-            continue
-        variants += 1
+    differing = [t for t in sorted(seen) if len(seen[t]) >= 2]
+    variants = len(differing)
+    # texts are fetched for at most MAX_DIAGNOSED differing targets per group, one extra child per involved process
+    # (a change that makes every constructor differ would otherwise cost two children per target)
+    MAX_DIAGNOSED = 4
+    chosen = differing[:MAX_DIAGNOSED]
+    need = {}
+    pairs = {}
+    for tgt in chosen:
         items = sorted(seen[tgt].items(), key=lambda kv: kv[1])
         (ha, (ja, oa)), (hb, (jb, ob)) = items[0], items[1]
-        ta = run_child(group["source"], group["cfgs"][ja], group["hist"][ja], want_text=[tgt])["texts"].get("%s:%d:%d" % tgt, "")
-        tb = run_child(group["source"], group["cfgs"][jb], group["hist"][jb], want_text=[tgt])["texts"].get("%s:%d:%d" % tgt, "")
-        cls = diff_class(ta, tb)
+        pairs[tgt] = (ha, ja, hb, jb)
+        need.setdefault(ja, []).append(tgt)
+        need.setdefault(jb, []).append(tgt)
+    texts = {}
+    for j, tgts in sorted(need.items()):
+        got = run_child(group["source"], group["cfgs"][j], group["hist"][j], want_text=tgts)["texts"]
+        for tgt in tgts:
+            texts[(j, tgt)] = got.get("%s:%d:%d" % tgt, "")
+    for tgt in chosen:
+        ha, ja, hb, jb = pairs[tgt]
+        cls = diff_class(texts[(ja, tgt)], texts[(jb, tgt)])
         if group["source"]["kind"] == "file":
             sig = f"C22:{cls}:{group['sid']}:{_target_name(group['source'], tgt)}"
         else:
             sig = f"C22:{cls}:generated"
         if sig not in problems:
             problems[sig] = {"msg": f"target {tgt} ({_target_name(group['source'], tgt)}) has {len(seen[tgt])} different texts: "
-                                    f"process {ja} -> {ha}, process {jb} -> {hb}",
+                                    f"process {ja} -> {ha}, process {jb} -> {hb}"
+                                    + (f" ({variants} targets of this group differ)" if variants > 1 else ""),
                              "target": list(tgt), "a": ja, "b": jb, "ha": ha, "hb": hb}
     log.add("group", "variants", variants)
     return {"problems": [(s, p["msg"]) for s, p in sorted(problems.items())], "detail": problems,
